@@ -253,9 +253,8 @@ def value_lattice(ctx):
     r = C.rng(ctx.seed, "value-lattice")
     bad, n_calls, n_elems, samples = [], 0, 0, []
     dist = {}
-    sigs = C.ALLSIGS if ctx.tier == "thorough" else None
     for dim in (2, 3, 4):
-        dsigs = C.SIGS[dim] if sigs else r.sample(C.SIGS[dim], min(4, len(C.SIGS[dim])))
+        dsigs = C.SIGS[dim]          # every stored system in every tier; the quick tier draws one flavor per system
         for sig in dsigs:
             for fl in ("g", "m") if ctx.tier == "thorough" else (r.choice("gm"),):
                 pts = C.strata_points(dim, r, n_random=4)
@@ -398,7 +397,7 @@ def dimension_lattice(ctx):
     r = C.rng(ctx.seed, "dimension-lattice")
     bad, n_calls, n_elems = [], 0, 0
     dist = {}
-    thorough = ctx.tier == "thorough"
+    thorough = True          # the whole signature set in every tier (2 s)
     for dtype in (numpy.float64, numpy.int64, numpy.float32):
         for tag in ("N.", "A."):
             for dim in (2, 3, 4):
@@ -485,7 +484,7 @@ def operator_value_lattice(ctx):
     r = C.rng(ctx.seed, "operator-values")
     bad, n_forms, n_elems = [], 0, 0
     dist = {}
-    thorough = ctx.tier == "thorough"
+    thorough = True          # every stored system in every tier (11 s)
     for dim in (2, 3, 4):
         nrm = {2: "rho", 3: "mag", 4: "tau"}[dim]
         nrm2 = nrm + "2"
